@@ -316,7 +316,7 @@ class ContiguousBlockAllocator():
             # // self.top points to the last non-nil entry, so, stop there.
             while i <= self.top and self._array[i - self.addr_offset] is None:
                 i += 1
-        if i < self.size:
+        if i - self.addr_offset < self.size:
             return self._array[i - self.addr_offset]
         else:
             return None
